@@ -1,6 +1,7 @@
 package main
 
 import (
+	"regexp"
 	"fmt"
 	"go/token"
 	"go/types"
@@ -83,9 +84,17 @@ func (t *Tr) findContract(c *ssa.CallCommon) (*Contract, string) {
 		if ct, ok := t.w.CS.ByName[key[:i]]; ok {
 			return ct, key[:i]
 		}
+		// method of a generic type: (*pkg.T[A, B]).m[A B] -> (*pkg.T).m
+		if k := typeArgs.ReplaceAllString(key, ""); k != key {
+			if ct, ok := t.w.CS.ByName[k]; ok {
+				return ct, k
+			}
+		}
 	}
 	return nil, key
 }
+
+var typeArgs = regexp.MustCompile(`\[[^\[\]]*\]`)
 
 func (t *Tr) call(_ interface{}, c *ssa.CallCommon, instr ssa.Instruction) {
 	// does this call possibly run one of this function's closures?
@@ -693,9 +702,17 @@ func (t *Tr) applyModifies(ct *Contract, env *Env, key string) {
 			if sty, fi := t.typeField(x, ct.Pkg); sty != nil {
 				set := map[string]bool{}
 				t.modsOfField(sty, sty.Underlying().(*types.Struct).Field(fi), set)
+				ft := sty.Underlying().(*types.Struct).Field(fi).Type()
+				nested := t.fieldHeaps(ft, 0) // a struct-typed field lives in the heaps of its own fields
 				for n := range set {
-					ft := sty.Underlying().(*types.Struct).Field(fi).Type()
-					kept[n] = t.heapGet(t.cur, n, Sort("(Array Int "+string(t.vc.sortOf(ft))+")"))
+					hs, ok := nested[n]
+					if !ok {
+						hs, ok = t.vc.heapSort[n]
+					}
+					if !ok {
+						hs = Sort("(Array Int " + string(t.vc.sortOf(ft)) + ")")
+					}
+					kept[n] = t.heapGet(t.cur, n, hs)
 				}
 				continue
 			}
